@@ -27,13 +27,40 @@ func CalleeObj(ci ssa.CallInstruction) *types.Func {
 	if cc.IsInvoke() {
 		return cc.Method
 	}
-	if f := cc.StaticCallee(); f != nil {
+	f := cc.StaticCallee()
+	if f == nil {
+		f = BoundCallee(ci)
+	}
+	if f != nil {
 		if f.Origin() != nil {
 			f = f.Origin()
 		}
 		if o, ok := f.Object().(*types.Func); ok {
 			return o
 		}
+	}
+	return nil
+}
+
+// BoundCallee: for a call of a function-valued parameter that is bound to its
+// argument (BindParam: the enclosing helper has one call site), the function
+// that argument denotes.
+func BoundCallee(ci ssa.CallInstruction) *ssa.Function {
+	cc := ci.Common()
+	if cc.IsInvoke() {
+		return nil
+	}
+	prm, ok := Strip(cc.Value).(*ssa.Parameter)
+	if !ok {
+		return nil
+	}
+	v := Strip(ResolveParam(prm))
+	switch x := v.(type) {
+	case *ssa.Function:
+		return x
+	case *ssa.MakeClosure:
+		f, _ := x.Fn.(*ssa.Function)
+		return f
 	}
 	return nil
 }
@@ -644,6 +671,12 @@ func LoadedField(v ssa.Value) *ssa.FieldAddr {
 	if u, ok := v.(*ssa.UnOp); ok && u.Op == token.MUL {
 		if fa, ok := u.X.(*ssa.FieldAddr); ok {
 			return fa
+		}
+		// a pointer parameter of a helper with one call site, bound to the address of a field (`&b.count`)
+		if prm, ok := u.X.(*ssa.Parameter); ok {
+			if fa, ok := ResolveParam(prm).(*ssa.FieldAddr); ok {
+				return fa
+			}
 		}
 	}
 	return nil
